@@ -8,6 +8,8 @@ mod c01;
 mod c02;
 mod cli;
 mod ledger;
+mod price;
+mod c09;
 
 pub struct Opts {
     pub seed: u64,
@@ -69,6 +71,7 @@ fn main() {
         "c01" => c01::run(&o),
         "c02" => c02::run(&o, "C02"),
         "c03" => c02::run(&o, "C03"),
+        "c09" => c09::run(&o),
         _ => {
             eprintln!("unknown property {}", prop);
             std::process::exit(2);
